@@ -294,7 +294,7 @@ def gen_cases(rec, rng, tier):
     yield {'kind': 'nfa', 'cls': 'eps_two_cycles', 'ref': Rw, 'n': 3, 'eps': ''}
     for _ in range(4):
         yield {'kind': 'nfa', 'cls': 'eps_two_cycles_renamed', 'ref': fag.random_renaming(rng, Rw), 'n': 3, 'eps': ''}
-    for _ in range(60 if thorough else 18):
+    for _ in range(200 if thorough else 18):
         nq, k = rng.randint(1, 6), rng.randint(1, 2)
         yield {'kind': 'dfa', 'cls': 'random_dfa', 'ref': fag.random_dfa(rng, nq, k, names=rng.choice([None, fag.random_names(rng, nq)])), 'n': 5 if k == 2 else 8}
         R = fag.random_nfa(rng, nq, k, eps_density=rng.choice([0.3, 0.8, 1.5]), names=rng.choice([None, fag.random_names(rng, nq)]))
@@ -306,10 +306,10 @@ def gen_cases(rec, rng, tier):
     if rec.shard % 8 == 2:
         for (name, RP, eps) in pdag.shipped_pdas(env.REPO):
             yield {'kind': 'pda', 'cls': 'shipped_' + name, 'ref': RP, 'n': 4, 'limit': 50, 'eps': eps}
-    for _ in range(40 if thorough else 14):
+    for _ in range(150 if thorough else 14):
         RP = pdag.random_pda(rng, rng.randint(1, 4), rng.randint(1, 2), rng.randint(0, 3), rng.randint(1, 8), p_eps=rng.choice([0.3, 0.5, 0.7]))
         yield {'kind': 'pda', 'cls': 'random_pda', 'ref': RP, 'n': 4 if len(RP[1]) == 2 else 5, 'limit': rng.choice([5, 12, 30, 50]), 'eps': rng.choice(['', '_'])}
-    for _ in range(80 if thorough else 25):
+    for _ in range(300 if thorough else 25):
         RG = cfgg.random_cnf(rng, rng.randint(1, 5), rng.randint(0, 7), nt=rng.randint(1, 2))
         yield {'kind': 'cfg', 'cls': 'random_cnf', 'ref': RG, 'n': 5 if len(RG[1]) == 2 else 7, 'notebook': True}
         RG = cfgg.redundant_cnf(rng)
